@@ -26,7 +26,7 @@ func runVersions(e *simcore.Env, tp *simcore.Tape) {
 	synctest.Test(e.T, func(*testing.T) {
 		knobDesc, knobRestore := simknobs.Draw(tp, "measure")
 		defer knobRestore()
-		e.Event("%s", knobDesc)
+		simknobs.Record(e, knobDesc)
 		s := wl.GenMeasureSchema(tp, wl.SchemaOpts{})
 		repo := simmeta.New()
 		s.Install(repo)
